@@ -244,6 +244,7 @@ func (c09) Exec(plan any, c *Ctx) *Violation {
 	pendingTrueOnPass := false
 	var restored *Cfg
 	for i, op := range p.Ops {
+		clockTick("a step")
 		op %= nC09Ops
 		step := fmt.Sprintf("#%d %s", i, c09OpNames[op])
 		var err error
